@@ -1,20 +1,25 @@
 //! Property registry: property id -> families of cases.
 use crate::engine::{Family, Tier, WorkerHooks};
 
+pub mod c01;
 pub mod c02;
 pub mod c03;
+pub mod c04;
 pub mod c07;
 pub mod c08;
 pub mod c09;
 pub mod c13;
+pub mod c19;
 pub mod c20;
 pub mod lazy;
 
-pub const ALL: &[&str] = &["C02", "C03", "C06", "C07", "C08", "C09", "C10", "C11", "C12", "C13", "C14", "C20"];
+pub const ALL: &[&str] = &["C01", "C02", "C03", "C04", "C06", "C07", "C08", "C09", "C10", "C11", "C12", "C13", "C14", "C19", "C20"];
 
 pub fn families(prop: &str, tier: Tier, variant: &str) -> Vec<Family> {
     match prop {
+        "C01" => c01::families(tier, variant),
         "C02" => c02::families(tier, variant, c02::Mode::AcceptReject),
+        "C04" => c04::families(tier, variant),
         "C03" => c03::families(tier, variant, c03::Mode::Tree),
         "C07" => c07::families(tier, variant),
         "C08" => c08::families(tier, variant),
@@ -22,6 +27,7 @@ pub fn families(prop: &str, tier: Tier, variant: &str) -> Vec<Family> {
         "C11" => lazy::families_c11(tier),
         "C12" => lazy::families_c12(tier),
         "C14" => lazy::families_c14(tier),
+        "C19" => c19::families(tier, variant),
         "C20" => c20::families(tier, variant),
         "C13" => c13::families(tier, variant),
         "C09" => c09::families(tier, variant),
